@@ -27,42 +27,56 @@ def diff(u):
     return {k: v for k, v in u.items() if BASE.get(k) != v}
 
 
-def rule_text(u: dict, npad: int) -> str:
+FORMS = ('block', 'block-reversed', 'line', 'announce', 'announce-reversed')
+
+
+def rule_text(u: dict, npad: int, form: str = 'block'):
+    """-> (section, text, action) for Configuration.partial().  One abstract rule has five concretisations: the
+    `route { match { } then { } }` block with the conditions in component order or reversed, the one-line `route ...`
+    form, and the API form `announce ipv4|ipv6 flow|flow-vpn ...` in order or reversed: the order in which the conditions
+    are typed must not show on the wire (RFC 8955 4.2: components in increasing type order)."""
     v6 = u['v6']
     pfx = {'p24': '2001:db8::/32' if v6 else '192.168.0.0/24', 'host': '2001:db8::1/128' if v6 else '10.0.0.1/32', 'def': '::/0' if v6 else '0.0.0.0/0',
            'off64': '::1234:5678:9a00:0/104/64', 'off65': '::1234:5678:9a00:0/104/65'}
     m = []
     if u['dst'] != 'none':
-        m.append(f'destination {pfx[u["dst"]]};')
+        m.append(f'destination {pfx[u["dst"]]}')
     if u['src'] != 'none':
-        m.append(f'source {pfx[u["src"]]};')
+        m.append(f'source {pfx[u["src"]]}')
     if u['proto'] != 'none':
-        m.append(('next-header ' if v6 else 'protocol ') + {'one': '=tcp', 'two': '[ =tcp =udp ]'}[u['proto']] + ';')
+        m.append(('next-header ' if v6 else 'protocol ') + {'one': '=tcp', 'two': '[ =tcp =udp ]'}[u['proto']])
     if u['port'] != 'none':
-        m.append(f'port {NUM[u["port"]]};')
+        m.append(f'port {NUM[u["port"]]}')
     if npad > 0:
-        m.append('destination-port [ ' + ' '.join(f'={1000 + i}' for i in range(1, npad + 1)) + ' ];')
+        m.append('destination-port [ ' + ' '.join(f'={1000 + i}' for i in range(1, npad + 1)) + ' ]')
     elif u['dport'] != 'none':
-        m.append(f'destination-port {NUM[u["dport"]]};')
+        m.append(f'destination-port {NUM[u["dport"]]}')
     if u['sport'] != 'none':
-        m.append(f'source-port {NUM[u["sport"]]};')
+        m.append(f'source-port {NUM[u["sport"]]}')
     if u['itype'] != 'none':
-        m.append('icmp-type =8;')
+        m.append('icmp-type =8')
     if u['icode'] != 'none':
-        m.append('icmp-code =0;')
+        m.append('icmp-code =0')
     if u['flags'] != 'none':
-        m.append('tcp-flags ' + {'syn': '[ syn ]', 'synack': '[ =syn+ack ]', 'notrst': '[ !rst ]'}[u['flags']] + ';')
+        m.append('tcp-flags ' + {'syn': '[ syn ]', 'synack': '[ =syn+ack ]', 'notrst': '[ !rst ]'}[u['flags']])
     if u['plen'] != 'none':
-        m.append(f'packet-length {NUM[u["plen"]]};')
+        m.append(f'packet-length {NUM[u["plen"]]}')
     if u['dscp'] != 'none':
-        m.append(('traffic-class' if v6 else 'dscp') + ' =10;')
+        m.append(('traffic-class' if v6 else 'dscp') + ' =10')
     if u['frag'] != 'none':
-        m.append('fragment ' + {'isf': '[ is-fragment ]', 'first': '[ first-fragment ]'}[u['frag']] + ';')
+        m.append('fragment ' + {'isf': '[ is-fragment ]', 'first': '[ first-fragment ]'}[u['frag']])
     if u['label'] != 'none':
-        m.append('flow-label =100000;')
-    then = {'discard': 'discard;', 'rate': 'rate-limit 9600;', 'redirect': 'redirect 65500:12345;', 'mark': 'mark 12;', 'sample': 'action sample;', 'terminal': 'action terminal;'}[u['action']]
-    rd = 'rd 65000:1; ' if u['rd'] else ''
-    return 'route { ' + rd + 'match { ' + ' '.join(m) + ' } then { ' + then + ' } }'
+        m.append('flow-label =100000')
+    then = {'discard': 'discard', 'rate': 'rate-limit 9600', 'redirect': 'redirect 65500:12345', 'mark': 'mark 12', 'sample': 'action sample', 'terminal': 'action terminal'}[u['action']]
+    if form.endswith('reversed'):
+        m.reverse()
+    if form.startswith('block'):
+        rd = 'rd 65000:1; ' if u['rd'] else ''
+        return 'flow', 'route { ' + rd + 'match { ' + ' '.join(x + ';' for x in m) + ' } then { ' + then + '; } }', ''
+    rd = 'rd 65000:1 ' if u['rd'] else ''
+    if form == 'line':
+        return 'flow', 'route ' + rd + ' '.join(m) + ' ' + then, ''
+    return ('ipv6' if v6 else 'ipv4'), ('flow-vpn ' if u['rd'] else 'flow ') + rd + ' '.join(m) + ' ' + then, 'announce'
 
 
 def npad_of(u: dict, want: bytes) -> int:
@@ -91,16 +105,18 @@ def decode(afi, safi, data: bytes):
         return None
 
 
-def execute(conf, u: dict, want: bytes) -> dict:
+def execute(conf, u: dict, want: bytes, form: str = 'block') -> dict:
     out = {'error': '', 'nlri': [], 'ecs': [], 'redec': [], 'refusedOk': True, 'text': '', 'fam': [0, 0]}
     nlri_want, action_want = want[:-8], want[-8:]
-    text = rule_text(u, npad_of(u, nlri_want))
-    out['text'] = text if len(text) < 400 else text[:200] + ' ... ' + text[-120:]
+    section, text, action = rule_text(u, npad_of(u, nlri_want), form)
+    out['text'] = f'[{form}] ' + (text if len(text) < 400 else text[:200] + ' ... ' + text[-120:])
     try:
         conf.scope.pop_routes()
-        if not conf.partial('flow', text):
+        if not (conf.partial(section, text, action) if action else conf.partial(section, text)):
             out['error'] = 'refused: ' + str(conf.error)[:160]
             return out
+        if action:
+            conf.scope.to_context()
         routes = conf.scope.pop_routes()
         if len(routes) != 1:
             out['error'] = f'{len(routes)} routes'
@@ -166,12 +182,15 @@ def run(tier: str) -> int:
     lines = []
     for i, st in enumerate(states):
         u = st['u']
-        out = execute(conf, u, bytes(st['bytes']))
+        # one of the five text forms per rule (all of them in turn over the table); the base rules in every form
+        form = FORMS[i % len(FORMS)]
+        out = execute(conf, u, bytes(st['bytes']), form)
         lines.append({'id': i, 'u': u, **{k: out[k] for k in ('error', 'nlri', 'ecs', 'redec', 'refusedOk', 'fam')}})
         ck.count(u, nontrivial=bool(diff(u)))
         if i in (1, len(states) // 2):
             ck.sample({'rule': diff(u), 'text': out['text'], 'nlri_hex': bytes(out['nlri']).hex()[:120], 'expected_hex': bytes(st['bytes'][:-8]).hex()[:120]})
         lines[-1]['_text'] = out['text']
+        lines[-1]['_form'] = form
         lines[-1]['_delivered'] = out.get('delivered', [])
     bad, res = updcheck.judge([{k: v for k, v in ln.items() if not k.startswith('_')} for ln in lines], 'Judge_ExaFlow', 'c16' + tier[0])
     ck.tlc(res, f'Judge_ExaFlow: {len(lines)} rules')
@@ -180,13 +199,13 @@ def run(tier: str) -> int:
         ln = lines[b['id']]
         for clause in b['clauses']:
             ck.violation({'clause': clause, 'changed': diff(ln['u']), 'offset': ln['u']['dst'].startswith('off')}, f'{clause}: {ln["_text"][:260]} error={ln["error"]!r} delivered={ln["_delivered"]} packed={bytes(ln["nlri"]).hex()[:80]}',
-                         {'u': ln['u'], 'want': bytes(states[b['id']]['bytes']).hex(), 'clause': clause})
+                         {'u': ln['u'], 'want': bytes(states[b['id']]['bytes']).hex(), 'clause': clause, 'form': ln['_form']})
     return ck.finish()
 
 
 def replay_file(path: str) -> int:
     c = json.load(open(path))['case']
-    out = execute(Configuration([]), c['u'], bytes.fromhex(c['want']))
+    out = execute(Configuration([]), c['u'], bytes.fromhex(c['want']), c.get('form', 'block'))
     bad, _ = updcheck.judge([{'id': 0, 'u': c['u'], **{k: out[k] for k in ('error', 'nlri', 'ecs', 'redec', 'refusedOk', 'fam')}}], 'Judge_ExaFlow', 'replay')
     print(out['text'], bytes(out['nlri']).hex(), 'expected', c['want'][:-16], out['error'], out.get('delivered'))
     if any(c['clause'] in b['clauses'] for b in bad):
